@@ -386,6 +386,14 @@ def gen_gen(rng):
             c['min'], c['max'] = c['max'], c['max']          # empty request: min == max
         return c
     log = rng.random() < 0.5
+    if rng.random() < 0.4:
+        # a grid asked for by its count between arbitrary (not round) limits: the count and the half-open end must
+        # not depend on how the span divides
+        lo = round(10 ** rng.uniform(-1, 3.5), rng.choice([1, 2, 3]))
+        hi = round(lo * 10 ** rng.uniform(0.05, 1.5) + rng.random(), rng.choice([1, 2, 3]))
+        if hi > lo > 0:
+            return {'op': 'gen_waves', 'min': q(lo), 'max': q(hi), 'num': rng.choice([1, 2, 3, 7, 10, 37, 49, 100, 999, 1000]),
+                    'log': log, 'delta': None}
     lo = float(rng.choice([500, 1000, 1, 10, 2000.5]))
     hi = lo * rng.choice([2, 10, 52, 1.5])
     c = {'op': 'gen_waves', 'min': q(lo), 'max': q(hi), 'num': rng.choice([1, 2, 10, 37, 100, 1000]), 'log': log, 'delta': None}
@@ -421,7 +429,7 @@ def run(rep):
     cases = core.load_corpus('C13')
     cases += [gen_merge(rng, 60 if thorough else 10) for _ in range(60000 if thorough else 1500)]
     cases += [gen_waveset_case(rng, 5 if thorough else 3) for _ in range(30000 if thorough else 1200)]
-    cases += [gen_gen(rng) for _ in range(3000 if thorough else 300)]
+    cases += [gen_gen(rng) for _ in range(6000 if thorough else 1500)]
     cases += [gen_default(rng) for _ in range(4000 if thorough else 400)]
     rep.rule = ('pairs of wavelength arrays with coincident and near-coincident points (differences 1e-16..1e-6), undefined sets; '
                 'waveset of random expression trees over all leaf kinds (C02 generator, redshifted and composite operands); '
